@@ -136,7 +136,10 @@ def run_case(c):
     m0 = copy.deepcopy(model)
     floats = dict(m0.named_modules(remove_duplicate=False))
     flt = None if c["filter"] is None else [originals[n] for n in c["filter"]]
+    from modlib import make_optimizer
     kwargs = {"weights": QT[c["weights"]], "activations": QT[c["activations"]]}
+    if c.get("optimizer"):
+        kwargs["optimizer"] = make_optimizer(c["optimizer"], c["weights"])
     if c.get("explicit_none_filter"):
         kwargs["modules"] = None
     elif flt is not None:
